@@ -6,6 +6,16 @@ import json
 from ddsim import gen, ops, prng, seams
 from ddsim.world import Stop, World, node_of
 
+class RunTimeout(BaseException):
+    """Raised by the worker's wall-clock alarm.  `in_dd` tells whether the
+    innermost frames were executing code of the dd package."""
+
+    def __init__(self, in_dd=False, where=''):
+        super().__init__(where)
+        self.in_dd = in_dd
+        self.where = where
+
+
 BG_OPS = {'gc', 'swap', 'reorder', 'pairs', 'configure', 'knobs', 'arm',
           'finalize', 'arm_final', 'declare', 'undeclare'}
 REORDER_OPS = {'swap', 'reorder', 'pairs'}
@@ -185,6 +195,17 @@ def run(prop, cfg, seed, trace=None, max_steps=None):
             epilogue(w)
         except Stop:
             pass
+        except RunTimeout as e:
+            if e.in_dd and w.cur is not None and w.failure is None:
+                # the API never returned: a violation of the property that
+                # owns the call (a wall-limit kill never yields exit 0)
+                ent = ops.OPS.get(w.cur.get('op'))
+                owner = ent[1] if ent else cfg['prop']
+                tags = ['C09'] if seams.ALLOC.fired or w.cur_info.get('dyn_on') else [owner]
+                w.failure = dict(oracle='no_return', detail=f'call did not return within the wall limit; innermost dd frame: {e.where}',
+                                 props=tags, op=w.cur.get('op'), step=w.step_no, cond=['flavor:' + w.flavor, 'timeout'])
+            else:
+                harness_error = f'run exceeded the wall limit outside dd code ({e.where})'
         except seams.HarnessError as e:
             harness_error = str(e)
         except RecursionError as e:
